@@ -176,6 +176,15 @@ class SSTable:
             return self._values[idx]
         return None
 
+    def has_key(self, key: str) -> bool:
+        """Exact membership test (no false positives).
+
+        Lets a caller tell a key stored with the value None from a miss,
+        which get() reports the same way.
+        """
+        idx = bisect.bisect_left(self._keys, key)
+        return idx < len(self._keys) and self._keys[idx] == key
+
     def scan(
         self, start_key: str | None = None, end_key: str | None = None
     ) -> list[tuple[str, Any]]:
